@@ -14,9 +14,7 @@ use crate::hash::hash_types::RichField;
 use crate::hash::merkle_proofs::MerkleProof;
 use crate::plonk::circuit_data::CommonCircuitData;
 use crate::plonk::config::{GenericConfig, Hasher};
-use crate::plonk::proof::{
-    CompressedProofWithPublicInputs, FriInferredElements, ProofChallenges,
-};
+use crate::plonk::proof::{CompressedProofWithPublicInputs, FriInferredElements, ProofChallenges};
 use crate::plonk::vars::EvaluationVars;
 
 pub mod knobs {
